@@ -50,6 +50,9 @@ def api_corr(rng, tier, prop):
         if r.get('order_preserved') is False:
             dis.append({'class': tag, 'check': 'records follow the order of the requested points', 'permutation_of_sorted_points': r.get('order_perm'),
                         'observed': 'fields are not permuted like the positions'})
+        if r.get('special_points_contract') is False:
+            dis.append({'class': tag, 'check': 'positions returned unchanged, input untouched, one record per point - for a request containing 0.0 and a duplicate',
+                        'points': r.get('special_points')})
         if r.get('int_equals_float') is False:
             dis.append({'class': tag, 'check': 'integer positions silently give different values than the same floats'})
     stats['exercised'] = exercised
